@@ -53,8 +53,12 @@ impl<'a, T> ManualExec<'a, T> {
     }
 
     pub fn spawn(&mut self, fut: impl Future<Output = T> + 'a) -> usize {
+        // `unconstrained`: tokio's cooperative budget is per thread, so manually polled futures
+        // would exhaust the budget of the enclosing `block_on` task; an exhausted budget makes
+        // tokio resources return Pending with a wake that is deferred to the runtime's next
+        // tick, which this executor would misread as a deadlock.
         self.tasks.push(Task {
-            fut: Some(Box::pin(fut)),
+            fut: Some(Box::pin(tokio::task::unconstrained(fut))),
             flag: Arc::new(WakeFlag {
                 woken: AtomicBool::new(true),
                 wakes: AtomicU64::new(0),
